@@ -193,7 +193,7 @@ impl<const N: u32> PxE1<{ N }> {
                     }
                     exp_z ^= 1;
                     if (frac64_z & 0x1) != 0 {
-                        bits_more = false;
+                        bits_more = true;
                     }
                     frac64_z = (frac64_z >> 1) & 0x_7FFF_FFFF_FFFF_FFFF;
                 } else {
